@@ -53,6 +53,10 @@ func init() {
 	intrinsics["math.Ceil"] = func(ex *Exec, fr *Frame, in ssa.Instruction, fn *ssa.Function, args []Value, st *State, cont callCont) {
 		cont(st, fr, mk("fp.roundToIntegral", SF64, mk("RTP", Sort("RoundingMode")), args[0].(*Term)))
 	}
+	intrinsics["math.Round"] = func(ex *Exec, fr *Frame, in ssa.Instruction, fn *ssa.Function, args []Value, st *State, cont callCont) {
+		// Go: nearest integer, halves away from zero = IEEE roundToIntegral with mode RNA
+		cont(st, fr, mk("fp.roundToIntegral", SF64, mk("RNA", Sort("RoundingMode")), args[0].(*Term)))
+	}
 	intrinsics["math.Floor"] = func(ex *Exec, fr *Frame, in ssa.Instruction, fn *ssa.Function, args []Value, st *State, cont callCont) {
 		cont(st, fr, mk("fp.roundToIntegral", SF64, mk("RTN", Sort("RoundingMode")), args[0].(*Term)))
 	}
